@@ -409,7 +409,10 @@ theorem run_state {s : State} (h : WF s) (r : ReadOp) :
     | serializeTurtle nsOf =>
       exact Or.inl ((preprocessTriples_nsExt nsOf _ s).trans (preprocessTriples_nsExt nsOf _ _))
     | serializeLongTurtle nsOf c f =>
-      exact Or.inl ((preprocessTriples_nsExt nsOf _ s).trans (preprocessTriples_nsExt nsOf _ _))
+      simp only [State.run, State.serializeLongTurtle]
+      split
+      · exact Or.inl (NsExt.refl s)
+      · exact Or.inl ((preprocessTriples_nsExt nsOf _ s).trans (preprocessTriples_nsExt nsOf _ _))
     | serializeXml nsOf =>
       exact Or.inl ((bindPredicates_nsExt nsOf _ s).trans (bindPredicates_nsExt nsOf _ _))
     | serializePrettyXml nsOf ty d =>
@@ -585,7 +588,9 @@ theorem run_out_cc {s : State} (h : WF s) (r : ReadOp) :
   cases r with
   | serializeFlat => simp only [State.run, State.serializeFlat, visible_cc]
   | serializeTurtle nsOf => simp only [State.run, State.serializeTurtle, visible_cc]
-  | serializeLongTurtle nsOf c f => simp only [State.run, State.serializeLongTurtle, visible_cc]
+  | serializeLongTurtle nsOf c f =>
+    simp only [State.run, State.serializeLongTurtle, visible_cc, contextsCall_isDataset]
+    split <;> rfl
   | serializeXml nsOf => simp only [State.run, State.serializeXml, visible_cc]
   | serializePrettyXml nsOf ty d => simp only [State.run, State.serializePrettyXml, visible_cc]
   | serializeCtxs => simp only [State.run, State.serializeCtxs, contextsCall_idem_fst, contextsCall_idem_snd]
@@ -638,7 +643,10 @@ theorem run_out_setNs {s : State} (h : WF s) (k : List Nat) (r : ReadOp) :
   cases r with
   | serializeFlat => rfl
   | serializeTurtle nsOf => rfl
-  | serializeLongTurtle nsOf c f => rfl
+  | serializeLongTurtle nsOf c f =>
+    have hd : (s.setNs k).isDataset = s.isDataset := rfl
+    simp only [State.run, State.serializeLongTurtle, hd, hv]
+    split <;> rfl
   | serializeXml nsOf => rfl
   | serializePrettyXml nsOf ty d => rfl
   | serializeCtxs => simp only [State.run, State.serializeCtxs, hc1, hc2, hq']
@@ -703,6 +711,7 @@ theorem runAll_wf : ∀ (rs : List ReadOp) {s : State}, WF s → WF (s.runAll rs
 def ReadOp.mayBindNs (s : State) (n : Nat) : ReadOp → Prop
   | .serializeTurtle nsOf => ∃ t ∈ s.visible, nsOf t.2.1 = some n
   | .serializeLongTurtle nsOf canon canonf =>
+    (canon && s.isDataset) = false ∧
     ∃ t ∈ (if canon then unionInto [] (canonf s.visible) else s.visible), nsOf t.2.1 = some n
   | .serializeXml nsOf => ∃ t ∈ s.visible, nsOf t.2.1 = some n
   | .serializePrettyXml nsOf ty _ =>
